@@ -388,7 +388,9 @@ def install_fs(it, fs):
             if not (recv.flags.get("create") or recv.flags.get("create_new")):
                 return Err(Uninterp("io::NotFound", []))
             fs.files[name] = []
-        return io_ok(FileHandle(fs, name))
+        h = FileHandle(fs, name)
+        h.append = bool(recv.flags.get("append"))
+        return io_ok(h)
     it.models[("OpenOpts", "open")] = do_open
     it.models[("SimFile", "metadata")] = lambda interp, recv, args: io_ok(Struct("Metadata", {"len": len(recv.data)}))
     it.models[("Metadata", "len")] = lambda interp, recv, args: recv["len"]
@@ -416,6 +418,9 @@ def install_fs(it, fs):
         fs.mutations += 1
         d = recv.data
         p = recv.posbox[0]
+        if getattr(recv, "append", False):
+            # O_APPEND: every write goes to the end of the file, whatever the seek position
+            p = len(d)
         if fs.journal is not None:
             fs.journal.append((recv.name, "write", p, list(buf)))
         if p > len(d):
